@@ -3,6 +3,7 @@ package props
 import (
 	"encoding/json"
 	"fmt"
+	"strings"
 
 	"verif/mc/fw"
 	. "verif/mc/refsem"
@@ -105,6 +106,28 @@ func c09PathCheck(c *fw.Ctx, s c09Spec) *fw.Violation {
 		c.State(fmt.Sprintf("%s root=%s len=%d -> %s", cls, c09Roots[s.Root], len(s.Path), res.Kind))
 	}
 	return v
+}
+
+// c09PathStream: ONE target expression evaluated over a sequence of documents (the elements of the input array), so that
+// anything remembered per expression site (a resolved member, a cached length) would show.
+func c09StreamProg(s c09Spec, docs []string) *progCase {
+	target := func() Expr {
+		var x Expr = V("$")
+		for _, st := range s.Path {
+			x = c09Steps[st].mk(x)
+		}
+		return x
+	}
+	op := c09Ops[s.Op]
+	body := []Stmt{Ex(Asg("=", V("r"), op.mk(target))), showS("r", V("r")), showS("$", V("$"))}
+	if s.Root == 1 {
+		for i, j := 0, len(docs)-1; i < j; i, j = i+1, j-1 {
+			docs[i], docs[j] = docs[j], docs[i]
+		}
+	}
+	doc := "[" + strings.Join(docs, ",") + "]"
+	return &progCase{P: &Program{Funcs: []*Func{c09Show}, Rules: []*Rule{{Body: Blk(body...)}, {Kind: "ENDFILE", Body: Blk(showS("end", V("$")))}}},
+		Files: []inFile{{"in.json", doc}}, Root: true, MaxSteps: 2_000_000}
 }
 
 // ----- statement histories -----
@@ -228,8 +251,8 @@ func init() {
 		Rule: "documents (all trees of depth <= 1, thorough also depth 2) x target paths of <= 3 steps over .a .b ['a'] and the indices 0 1 -1 2 5 0.9 -0.5 1048577, rooted at $, at a variable aliasing the document and at a fresh variable, x 7 stores (=, +=, prefix and postfix ++/--, storing a container) and 9 reads (plain, non-mutating methods, operators); " +
 			"after the operation the program shows the result, $, the alias and the fresh variable, ENDFILE shows $ again and the JSON output is compared with the model's document; " +
 			"all histories of <= L statements over 14 aliasing / mutating statements (copy, share, index and member stores, push/pop through aliases, a mutating callee, loop variables, padding) on three documents, showing every variable after every statement; all histories of L statements over 12 object statements (inserts through an alias or a callee, iteration and printing through the other name, pluck, rebinding); " +
-			"oracle: whole-store equality with the reference interpreter (DESIGN.md 3.10); states = (read/write, root, path length, outcome); non-trivial = same",
-		Plan: func(t fw.Tier) int { return len(c09Roots)*nSt + len(c09Roots) + len(c09HistStmts())*len(c09HistDocs) + len(c09ObjStmts()) },
+			"every target path of <= 2 steps x operation also as ONE expression site over the sequence of all documents (forward and reversed); oracle: whole-store equality with the reference interpreter (DESIGN.md 3.10); states = (read/write, root, path length, outcome); non-trivial = same",
+		Plan: func(t fw.Tier) int { return len(c09Roots)*nSt + len(c09Roots) + len(c09HistStmts())*len(c09HistDocs) + len(c09ObjStmts()) + nSt },
 		Bound: func(t fw.Tier) string {
 			setup()
 			if t == fw.Thorough {
@@ -281,6 +304,29 @@ func init() {
 				return
 			}
 			u -= nPathUnits
+			if u >= len(c09HistStmts())*len(c09HistDocs)+len(c09ObjStmts()) {
+				first := u - len(c09HistStmts())*len(c09HistDocs) - len(c09ObjStmts())
+				var docs []string
+				for di := 0; di < docs1.Count(); di++ {
+					docs = append(docs, docs1.At(di))
+				}
+				paths := [][]int{{first}}
+				for st := 0; st < nSt; st++ {
+					paths = append(paths, []int{first, st})
+				}
+				for _, path := range paths {
+					for op := range c09Ops {
+						for rev := 0; rev < 2; rev++ {
+							s := c09Spec{Form: "pathstream", Root: rev, Path: path, Op: op}
+							c.Do(func() any { return s }, func() *fw.Violation {
+								v, _, _ := c09StreamProg(s, append([]string{}, docs...)).check(c)
+								return v
+							})
+						}
+					}
+				}
+				return
+			}
 			if u >= len(c09HistStmts())*len(c09HistDocs) {
 				first := u - len(c09HistStmts())*len(c09HistDocs)
 				L := c.Pick(4, 5)
@@ -319,6 +365,14 @@ func init() {
 			}
 			if s.Form == "objhist" {
 				return c09ObjCheck(c, s)
+			}
+			if s.Form == "pathstream" {
+				var docs []string
+				for di := 0; di < docs1.Count(); di++ {
+					docs = append(docs, docs1.At(di))
+				}
+				v, _, _ := c09StreamProg(s, docs).check(c)
+				return v
 			}
 			return c09PathCheck(c, s)
 		},
